@@ -1,6 +1,7 @@
 //! extract — C09 / C10: what the extractors deliver to a handler, and what
 //! they refuse.  `--mode c09` valid streams (+ concurrency slice), `--mode c10`
 //! malformed streams, `--mode probe` a scratch mode that prints raw replies.
+mod buffered;
 mod c09;
 mod c10;
 mod cases;
@@ -46,14 +47,22 @@ impl Server {
 
 fn probe(server: &Server) {
     let mut reqs: Vec<Vec<u8>> = vec![];
-    for n in [8193usize, 40000, 65000, 65500, 65534, 65535, 66000, 100000, 500000] {
-        println!("CT: path-len {}", n);
-        reqs.push(live::request("GET", &format!("/p/str/{}", "a".repeat(n)), &[], None));
-    }
-    for d in [120usize, 126, 127, 128, 129, 200] {
-        println!("CT: json-depth {}", d);
-        let body = format!("{{\"s\":\"x\",\"n\":1,\"big\":1,\"b\":true,\"c\":\"c\",\"e\":\"Red\",\"l\":[],\"u\":{}{}}}", "[".repeat(d), "]".repeat(d));
-        reqs.push(live::request("PUT", "/b/json", &[], Some(body.as_bytes())));
+    for (path, body) in [
+        ("/bx/flat", r#"{"id":1,"x":1.5,"y":0.25,"p":18446744073709551615,"q":-9223372036854775808,"b":true,"s":"a","o":2.5}"#),
+        ("/bx/flat", r#"{"id":1,"x":1e308,"y":-0.0,"p":0,"q":0,"b":false,"s":"","o":null}"#),
+        ("/bx/flat", r#"{"x":4.9e-324,"y":1e-45,"p":0,"q":0,"b":false,"s":"","id":7}"#),
+        ("/bx/un", r#"{"u":1.5,"v":["s",{"x":0.5,"n":-9223372036854775808},2, 1e308, -0.0]}"#),
+        ("/bx/un", r#"{"u":{"x":0.5,"n":5},"v":[]}"#),
+        ("/bx/tag", r#"{"it":{"t":"A","x":4.9e-324,"p":18446744073709551615},"ad":{"t":"W","c":340282366920938463463374607431768211455}}"#),
+        ("/bx/tag", r#"{"it":{"x":0.1,"t":"A","p":7},"ad":{"c":{"x":1e-45,"q":-7},"t":"B"}}"#),
+        ("/bx/tag", r#"{"it":{"t":"V","id":2,"x":1.5,"y":0.25,"p":1,"q":1,"b":true,"s":"a"},"ad":{"t":"A","c":-0.0}}"#),
+        ("/bx/tag", r#"{"it":{"t":"C"},"ad":{"c":340282366920938463463374607431768211455,"t":"W"}}"#),
+        ("/bx/tag", r#"{"it":{"t":"C"},"ad":{"t":"Z","c":{"z":-170141183460469231731687303715884105728}}}"#),
+        ("/bx/128", r#"{"id":1,"it":{"t":"C"},"un":"s","w":5,"z":-5}"#),
+        ("/bx/128", r#"{"id":1,"it":{"t":"A","w":5},"un":"s","w":5,"z":-5}"#),
+    ] {
+        println!("CT: {} {}", path, &body[..body.len().min(70)]);
+        reqs.push(live::request("PUT", path, &[], Some(body.as_bytes())));
     }
     for r in reqs {
         let head = String::from_utf8_lossy(&r[..r.len().min(120)]).to_string();
@@ -147,6 +156,7 @@ fn main() {
                 c09::gen_all(&server, o.seed, o.thorough, out);
                 large::gen_c09(&server, o.seed, o.thorough, out);
                 float::gen_c09(&server, o.seed, o.thorough, out);
+                buffered::gen_c09(&server, o.seed, o.thorough, out);
                 tls::gen_all(o.seed, o.thorough, out);
                 slow::finish(slow_run, out);
             }
@@ -154,6 +164,7 @@ fn main() {
                 c10::gen_all(&server, o.seed, o.thorough, out);
                 large::gen_c10(&server, o.thorough, out);
                 float::gen_c10(&server, out);
+                buffered::gen_c10(&server, o.seed, o.thorough, out);
             }
             (m, _) => panic!("unknown mode {:?}", m),
         }
